@@ -69,12 +69,12 @@ pub fn pay_setup(seed: u64, cbal: u64, mbal: u64, amt: i64) -> Pay {
     Pay { w, rng, pctx, nonce: start.nonce, bytes, at, key, rkey, rev, amt }
 }
 
-fn cp(at: &[Atom], pfx: &str, what: &str) -> Scalar {
+pub fn cp(at: &[Atom], pfx: &str, what: &str) -> Scalar {
     atom_scalar(at, &format!("{}.{}", pfx, what))
 }
 
 /// signature-proof relation of `pfx` under key atoms (g2, x2, y2s) taken from `key` with prefix `kp`
-fn sigproof_ref(key: &[Atom], kp: &str, at: &[Atom], pfx: &str, n: usize, c: Scalar) -> F {
+pub fn sigproof_ref(key: &[Atom], kp: &str, at: &[Atom], pfx: &str, n: usize, c: Scalar) -> F {
     let g2 = atom_scalar(key, &format!("{}g2", kp));
     let x2 = atom_scalar(key, &format!("{}x2", kp));
     let mut lhs = g2 * cp(at, pfx, "commitment_proof.blinding_factor_response_scalar");
@@ -87,7 +87,7 @@ fn sigproof_ref(key: &[Atom], kp: &str, at: &[Atom], pfx: &str, n: usize, c: Sca
     F::and(vec![nz(s1), schnorr, eq(s1 * (x2 + com), s2 * g2)])
 }
 
-fn pow128(j: usize) -> Scalar {
+pub fn pow128(j: usize) -> Scalar {
     let mut p = Scalar::one();
     for _ in 0..j {
         p = p * Scalar::from(128u64);
